@@ -128,13 +128,13 @@ def lab(file, func):
     return "(%s, %s)" % (L.s(file.rsplit("/", 1)[1]), L.s(func))
 
 
-def deep_trace(rng, depth):
+def deep_trace(rng, depth, two_per=False):
     """Recursion far deeper than any fixed bound on the pending stack: every invocation opens a context."""
     file, func = FUNCS[0]
     out = []
     for k in range(1, depth + 1):
         out.append(("call", file, func, 1, k, None))
-        if rng.random() < 0.3:
+        if two_per or rng.random() < 0.3:
             out.append(("line", file, func, 2, k, None))
     for k in range(depth, 0, -1):
         out.append(("return", file, func, 4, k, "ret-%d" % k))
@@ -156,7 +156,7 @@ def nested_line_trace(rng, depth):
     return out
 
 
-def run_case(ctx, nthreads, max_events, deep=0, nested_line=0):
+def run_case(ctx, nthreads, max_events, deep=0, nested_line=0, two_per=False):
     rng = ctx.rng
     world = e2.World(logger=False, spans=rng.choice([1, 1, 2]), metrics=0)
     world.clear_pending()
@@ -170,6 +170,13 @@ def run_case(ctx, nthreads, max_events, deep=0, nested_line=0):
                LocationAction("tp1", None, dict(conf, frame_type="no_frame", watches=[], stage="method_capture"), LocationAction.ActionType.Snapshot))
         trigs = [Trigger(FunctionLocation(file.rsplit("/", 1)[1], func, Location.Position.START), [act])]
         tdesc = [dict(tp="tp1", at="%s:%s()" % (file.rsplit("/", 1)[1], func), kind=kind, fire_count="-1", recursion_depth=deep)]
+        if two_per:
+            # a second piece of deferred work per invocation (a span on a line of the recursing function): more contexts are
+            # pending than there are frames on the call stack
+            from deep.api.tracepoint.trigger import LineLocation
+            trigs.append(Trigger(LineLocation(file.rsplit("/", 1)[1], 2, Location.Position.START),
+                                 [LocationAction("tp2", None, dict(conf, span="line"), LocationAction.ActionType.Span)]))
+            tdesc.append(dict(tp="tp2", at="%s:2" % file.rsplit("/", 1)[1], kind="span", fire_count="-1"))
     if nested_line:
         from deep.api.tracepoint.trigger import LocationAction, Trigger, LineLocation, Location
         file, func = FUNCS[0]
@@ -181,7 +188,7 @@ def run_case(ctx, nthreads, max_events, deep=0, nested_line=0):
         tdesc = [dict(tp="tp1", at="%s:2" % file.rsplit("/", 1)[1], kind=kind, fire_count="-1", nested_same_named_invocations=nested_line)]
     world.install(trigs)
     workers = [Worker(world) for _ in range(nthreads)]
-    traces = [deep_trace(rng, deep) if deep else nested_line_trace(rng, nested_line) if nested_line else gen_trace(rng, max_events)
+    traces = [deep_trace(rng, deep, two_per) if deep else nested_line_trace(rng, nested_line) if nested_line else gen_trace(rng, max_events)
               for _ in range(nthreads)]
     frames = [dict() for _ in range(nthreads)]          # per thread: frame key -> frame object
     live = [[] for _ in range(nthreads)]                 # per thread: keys of running invocations
@@ -194,7 +201,7 @@ def run_case(ctx, nthreads, max_events, deep=0, nested_line=0):
     order = []
     gidx = 0
     total_events = sum(len(tr) for tr in traces)
-    empty_at = rng.randrange(total_events) if rng.random() < 0.3 else None     # the service removes every tracepoint here
+    empty_at = rng.randrange(total_events) if rng.random() < 0.3 and not deep and not nested_line else None     # the service removes every tracepoint here
     while any(pos[t] < len(traces[t]) for t in range(nthreads)):
         if empty_at is not None and gidx == empty_at:
             world.install([])
@@ -215,8 +222,9 @@ def run_case(ctx, nthreads, max_events, deep=0, nested_line=0):
             fails.append(("raised", "the handler raised %r at event %d of thread %d" % (exc, pos[t] - 1, t)))
         store = world.pending().get(workers[t].ident)
         after = list(store) if store else []
-        new = [c for c in after if not any(c is b for b in before)]
-        gone = [c for c in reversed(before) if not any(c is a for a in after)]      # top first
+        before_ids, after_ids = {id(c) for c in before}, {id(c) for c in after}     # (all of them are alive: identity = id)
+        new = [c for c in after if id(c) not in before_ids]
+        gone = [c for c in reversed(before) if id(c) not in after_ids]      # top first
         opens = bool(new)
         if len(new) > 1:
             fails.append(("two-contexts", "two contexts opened at one event"))
@@ -318,6 +326,56 @@ def run_case(ctx, nthreads, max_events, deep=0, nested_line=0):
     return lits, desc
 
 
+def ident_reuse(ctx, rounds):
+    """Threads that run one after another reuse thread idents.  While a later thread has a context pending, the last reference to
+    an EARLIER, finished thread (of the same ident) is dropped and collected: the later thread's context is still completed at its
+    return, by that thread, exactly once."""
+    import gc
+    from deep.api.tracepoint.trigger import LocationAction, Trigger, FunctionLocation, Location
+    world = e2.World(logger=False, spans=1, metrics=0)
+    world.clear_pending()
+    conf = {"fire_count": "-1", "fire_period": "0"}
+    world.install([Trigger(FunctionLocation("job.py", "job", Location.Position.START),
+                           [LocationAction("tp-s", None, dict(conf, span="x"), LocationAction.ActionType.Span),
+                            LocationAction("tp-c", None, dict(conf, frame_type="no_frame", watches=[], stage="method_capture"),
+                                           LocationAction.ActionType.Snapshot)])])
+    finished, idents = [], []
+    for r in range(rounds):
+        inside, go = threading.Event(), threading.Event()
+
+        def body(r=r):
+            fr = e2.mk_frame("/app/job.py", "job", 1, {"r": r})
+            world.event(fr, "call")
+            inside.set()
+            go.wait(10)
+            fr.f_lineno = 3
+            world.event(fr, "return", "result-%d" % r)
+        t = threading.Thread(target=body)
+        t.start()
+        inside.wait(10)
+        idents.append(t.ident)
+        finished.clear()          # the earlier Thread objects go away NOW, while this worker has work pending
+        gc.collect()
+        go.set()
+        t.join(10)
+        finished.append(t)
+    spans = [s_ for p in world.cfg.plugins for s_ in getattr(p, "spans", [])]
+    caps = [p for w, _t, _i, p in world.log if w == "snapshot"]
+    reused = len(idents) - len(set(idents))
+    j = dict(rounds=rounds, thread_idents_reused=reused, spans_opened=len(spans), spans_closed_once=sum(1 for s_ in spans if s_.closed == 1),
+             deferred_snapshots_sent=len(caps))
+    ctx.case(j, nontrivial=reused > 0, bucket="ident-reuse")
+    if any(s_.closed != 1 for s_ in spans) or len(spans) != rounds:
+        ctx.fail("%d sequential threads (%d on a reused ident) each opened a method span: %d spans opened, %d closed exactly once" % (
+            rounds, reused, len(spans), j["spans_closed_once"]), j, kind="schedule", tag="not-once")
+    if len(caps) != rounds:
+        ctx.fail("%d sequential threads each deferred a method capture: %d were sent" % (rounds, len(caps)), j, kind="schedule", tag="dropped-uncompleted")
+    left = {k: len(v) for k, v in world.pending().items() if v}
+    if left:
+        ctx.fail("contexts left pending after every thread finished: %r" % (left,), j, kind="schedule", tag="left-pending")
+    world.clear_pending()
+
+
 def run(ctx):
     import logging
     from ..lib.quiet import quiet_logging
@@ -345,12 +403,17 @@ def run(ctx):
         for x in ls:
             lits.append(x)
             cj.append(desc)
+    ls, desc = run_case(ctx, 1, 0, deep=(900 if ctx.thorough else 600), two_per=True)       # 1200+ contexts pending in one thread
+    for x in ls:
+        lits.append(x)
+        cj.append(desc)
     for depth in ([70, 150, 300, 600] if ctx.thorough else [150, 300]):
         ls, desc = run_case(ctx, 1, 0, deep=depth)
         for x in ls:
             lits.append(x)
             cj.append(desc)
     ctx.correspond("callbacks", IMPORTS, "cb_case", "check_cb_case", lits, cj, shard=100)
+    ident_reuse(ctx, 60 if ctx.thorough else 25)
 
 
 def replay(ctx, data):
